@@ -1,0 +1,47 @@
+//go:build verif
+
+package router
+
+// Verification hooks for property C15, round 2 (add-only, compiled only with -tags verif):
+// the resourceLimiter exactly as the router builds it from its configuration.
+
+import (
+	"net/netip"
+
+	"github.com/IrineSistiana/mosproxy/internal/limiter"
+)
+
+// VerifC15Limiter wraps the resourceLimiter returned by initResourceLimiter.
+type VerifC15Limiter struct{ l *resourceLimiter }
+
+// VerifC15Init is initResourceLimiter.
+func VerifC15Init(cfg LimiterConfig) *VerifC15Limiter {
+	return &VerifC15Limiter{l: initResourceLimiter(cfg)}
+}
+
+// Client returns the client limiter built from the configuration (nil when there is none).
+func (v *VerifC15Limiter) Client() *limiter.ClientLimiter { return v.l.cl }
+
+// Global returns rate and burst of the global bucket (ok = false when there is none).
+func (v *VerifC15Limiter) Global() (limit float64, burst int, ok bool) {
+	if v.l.global == nil {
+		return 0, 0, false
+	}
+	return float64(v.l.global.Limit()), v.l.global.Burst(), true
+}
+
+// AllowN is resourceLimiter.AllowN (real clock): "ok", "global" or "client".
+func (v *VerifC15Limiter) AllowN(addr netip.Addr, n int) string {
+	switch v.l.AllowN(addr, n) {
+	case nil:
+		return "ok"
+	case errGlobalResLimit:
+		return "global"
+	case errClientResLimit:
+		return "client"
+	}
+	return "other"
+}
+
+// Close is resourceLimiter.Close.
+func (v *VerifC15Limiter) Close() { v.l.Close() }
